@@ -136,7 +136,7 @@ def finish(ctx: Ctx, level: str = "model_checking") -> int:
     known = [k for k in load_known().get("findings", []) if k["property"] == ctx.prop]
     unlisted, listed = [], {}
     for v in ctx.violations:
-        k = next((k for k in known if k["signature"] == v.signature or
+        k = next((k for k in known if k.get("signature") == v.signature or
                   (k.get("signature_prefix") and v.signature.startswith(k["signature_prefix"]))), None)
         if k is None:
             unlisted.append(v)
